@@ -38,7 +38,7 @@ ValuesOf(dt) ==
          \cup (IF Big THEN { ValBytes(ElemSize(dt), 65535 \div ElemSize(dt), 2) } ELSE {})
     ELSE { ValBytes(ElemSize(dt), 1, p) : p \in 0..6 }
 
-PathBytes(len) == Mat([i \in 1..len |-> IF i = 3 THEN 0 ELSE IF i = 8 THEN 46 ELSE 64 + i])
+PathBytes(len) == Mat([i \in 1..len |-> IF i = 3 THEN 0 ELSE IF i = 8 THEN 46 ELSE 65 + (i % 26)])
 PathsOf(mode) ==
   CASE mode = 0 -> { PathBytes(l) : l \in (IF Big THEN {0, 1, 4, 13, 300} ELSE {0, 1, 4, 13}) }
     [] mode = 1 -> { <<0,0,0,0>>, <<0,0,0,1>>, <<222,173,190,239>> }
